@@ -124,6 +124,12 @@ func init() {
 			var nTime, nStr, nFld, nGen int
 			var seenCtx []context.Context
 			hookTime := time.Date(2031, 2, 3, 4, 5, 6, 7_000_000, time.UTC)
+			hookStamp := "[2031-02-03T04:05:06.007]"
+			if c.Ctx == 2 {
+				// boundary value: the hook reports the zero instant (an application clock that has not been set):
+				// it is the hook's time all the same, the wall clock is only used when NO hook is set
+				hookTime, hookStamp = time.Time{}, "[0001-01-01T00:00:00.000]"
+			}
 			if c.Hooks&1 != 0 {
 				log.TimeNow = func(ctx context.Context) time.Time { nTime++; seenCtx = append(seenCtx, ctx); return hookTime }
 			}
@@ -192,7 +198,7 @@ func init() {
 					fail("emission", fmt.Sprintf("built-in logger: emitted=%v but console=%q", enabled, out))
 				}
 				if enabled {
-					if c.Hooks&1 != 0 && !strings.Contains(out, "[2031-02-03T04:05:06.007]") {
+					if c.Hooks&1 != 0 && !strings.Contains(out, hookStamp) {
 						fail("record-time", fmt.Sprintf("hook time not in the line %q", out))
 					}
 					wantTail := ""
